@@ -46,7 +46,7 @@ MINIMUMS = {
 }
 
 FNS = [kinds.node, kinds.node2, kinds.two, kinds.three, kinds.Base, kinds.Mid, kinds.target3,
-       kinds.DC, kinds.DCKwOnly, kinds.mutdef, kinds.booldef, kinds.tagged_fn, kinds.PosInit,
+       kinds.DC, kinds.DCKwOnly, kinds.mutdef, kinds.prefdef, kinds.booldef, kinds.tagged_fn, kinds.PosInit,
        sigs.g_posonly_defaults, sigs.g_posonly_mixed, sigs.g_a1_b2_va_k_vk, sigs.g_a_b_c3_k4_j]
 LEAVES = [0, 1, True, False, 1.0, 0.0, 2, 3, 'a', '', None, (1, 2), (), ('x', (3, 4)), 2.5,
           kinds.Color.RED, kinds.two, 'Dp0', 'K', 'db', 'kb', 'y',
@@ -55,7 +55,7 @@ LEAVES = [0, 1, True, False, 1.0, 0.0, 2, 3, 'a', '', None, (1, 2), (), ('x', (3
 
 
 def plan(tier):
-  n = 60 if tier == 'quick' else 5000
+  n = 90 if tier == 'quick' else 5000
   shards = [{'name': f's{i}', 'kind': 'main', 'n': n, 'start': i * n} for i in range(14)]
   shards += [{'name': 'inline', 'kind': 'inline', 'n': 120 if tier == 'quick' else 12000}]
   shards += [{'name': 'dc', 'kind': 'dataclasses', 'n': 200 if tier == 'quick' else 20000}]
@@ -210,6 +210,15 @@ def run_main(spec, acc):
       else:
         n.kw['d'] = shared_list
       acc.obs('shared_value_equal_to_mutable_default')
+    # ... also when the only other reference is a sibling argument whose NAME extends this one's
+    prefs = [n for n in gen.walk(root) if isinstance(n, gen.B) and n.fn is kinds.prefdef
+             and n.btype in ('Config', 'Partial') and not n.pos]
+    for n in prefs:
+      if rng.random() < 0.7:
+        shared_list = gen.Seq('list', [gen.Leaf('shared'), gen.Leaf('default')])
+        n.kw['opt'] = shared_list
+        n.kw[rng.choice(['opt_extra', 'opt2', 'other'])] = shared_list
+        acc.obs('shared_value_equal_to_mutable_default:sibling-argument')
     # some TaggedValues without a value (build must fail before and after)
     if rng.random() < 0.1:
       for n in gen.walk(root):
